@@ -98,8 +98,9 @@ pub fn check_tokens(front: &str, text: &str, src: &[char], toks: &[Token], plain
                 if !zero && !ok {
                     // recorded finding: Markdown's hard break `\`+newline is a Newline(2) of length 1 at
                     // the start of the event's range, i.e. over the backslash
-                    let bs = !plain && front.starts_with("markdown") && txt == ['\\'];
-                    let class = if bs { "c02-md-backslash-hardbreak" } else { "newline-shape" };
+                    let bs = !plain && (front.starts_with("markdown") || front.starts_with("typst")) && txt == ['\\'];
+                    // the same reading in Typst: a forced line break `\` (Expr::Linebreak) is a Newline(1) over the backslash
+                    let class = if bs && front.starts_with("typst") { "c02-typst-backslash-linebreak" } else if bs { "c02-md-backslash-hardbreak" } else { "newline-shape" };
                     out.fails.push((class.into(), format!("Newline({}) over {:?}", n, txt.iter().collect::<String>()), inp()));
                     if !bs {
                         return;
